@@ -4,7 +4,10 @@
 package main
 
 import (
+	"bytes"
+	"encoding/json"
 	"fmt"
+	"os"
 	"runtime"
 	"sort"
 	"strings"
@@ -461,13 +464,32 @@ func (e *env) verifyMember(i, s int, acc bool, caseOf func() any) {
 	}
 }
 
-func main() {
-	f := mbt.ParseFlags()
-	initKeys()
-	behs, err := mbt.ReadBehaviours(f.In)
+func readLines(path string) [][]byte {
+	bz, err := os.ReadFile(path)
 	if err != nil {
 		mbt.Die("%v", err)
 	}
+	var out [][]byte
+	for _, l := range bytes.Split(bz, []byte{'\n'}) {
+		if len(l) > 0 {
+			out = append(out, l)
+		}
+	}
+	return out
+}
+
+func decodeBeh(line []byte) []mbt.Step {
+	var steps []mbt.Step
+	if err := json.Unmarshal(line, &steps); err != nil {
+		mbt.Die("bad behaviour line: %v", err)
+	}
+	return steps
+}
+
+func main() {
+	f := mbt.ParseFlags()
+	initKeys()
+	lines := readLines(f.In) // decoded per worker: a large thorough-tier input never sits in memory as maps
 	// -x "kt|bad" restricts the realisation (replay of a recorded case); default: all key types, flavour rotates
 	var onlyKT, onlyBad string
 	if f.Extra != "" {
@@ -488,7 +510,8 @@ func main() {
 		wg.Add(1)
 		go func(w int) {
 			defer wg.Done()
-			for i := w; i < len(behs); i += nw {
+			for i := w; i < len(lines); i += nw {
+				beh := decodeBeh(lines[i])
 				for t, kt := range keyTypes {
 					if onlyKT != "" && kt != onlyKT {
 						continue
@@ -497,20 +520,20 @@ func main() {
 					if onlyBad != "" {
 						bad = onlyBad
 					}
-					if replay(behs[i], kt, bad, (i+t)%probeEvery == 0 || onlyKT != "", i*4+t) {
+					if replay(beh, kt, bad, (i+t)%probeEvery == 0 || onlyKT != "", i*4+t) {
 						atomic.AddInt64(&okc, 1)
 					}
 					atomic.AddInt64(&replays, 1)
-					atomic.AddInt64(&steps, int64(len(behs[i])))
+					atomic.AddInt64(&steps, int64(len(beh)))
 				}
 			}
 		}(w)
 	}
 	wg.Wait()
-	for i := 0; i < len(behs) && i < 2; i++ {
-		mbt.Sample(behs[len(behs)-1-i])
+	for i := 0; i < len(lines) && i < 2; i++ {
+		mbt.Sample(json.RawMessage(lines[len(lines)-1-i]))
 	}
-	sm := map[string]any{"behaviours": len(behs), "replays": replays, "replays_ok": okc, "steps": steps,
+	sm := map[string]any{"behaviours": len(lines), "replays": replays, "replays_ok": okc, "steps": steps,
 		"verify_calls": cnt.verify, "gas_consumer_calls": cnt.gas, "byte_probes": cnt.bytesProbes, "member_checks": cnt.member}
 	flushReports()
 	seenMu.Lock()
